@@ -22,6 +22,7 @@ RULE = ('cases = one segment or path (all types; arcs rotated/unrotated, circula
         'arc paths, open paths) with one operation: translated(z), rotated(deg[, origin]), scaled(sx[, sy][, origin]) or '
         'transform(M) for M in {identity, translation, rotation, uniform/non-uniform/negative scale, reflection, shear, products; '
         'cond <= 1e3}; distinct by spec + operation; non-trivial if an oracle verdict was reached')
+RULE += "; nearly equal scale factors; the result path's start/end/isclosed() against its own segments"
 ASSUMPTIONS = ['the input object\'s own point() is the reference curve',
                'Bezier results are compared to 64*eps*(|M|*size + |shift|)*cond(M) + 1e-12*size, arcs to 1e-9*size*|M|*cond (1e-6 where the '
                'result or the input is a half-turn arc: centre sqrt(rounding)-conditioned, DESIGN 3.3)']
